@@ -139,6 +139,9 @@ func genBasketCreate(w *World) sdk.Msg {
 }
 
 func (w *World) pickBasket(label string) (string, *basketapi.Basket) {
+	if d, ok := w.phantom(label, w.phBaskets); ok {
+		return d, nil
+	}
 	if len(w.S.Baskets) > 0 && !w.offState(label) {
 		b := pickOf(w, label, w.S.Baskets)
 		return b.BasketDenom, b
@@ -214,7 +217,22 @@ func genTake(w *World) sdk.Msg {
 	denom, bsk := w.pickBasket("basket")
 	owner := w.anyAcct("owner")
 	var bal *big.Int
-	if bsk != nil {
+	// a holder of more than 34 digits' worth of tokens is rare and is where the 34-digit decimal context matters:
+	// when there is one, half of the takes are theirs
+	forced := false
+	if bsk != nil && w.chance("?bigholder", 50) {
+	search:
+		for _, b := range w.S.Baskets {
+			for _, a := range w.Accts {
+				if len(w.S.BankOf(a.String(), b.BasketDenom).String()) > 34 {
+					denom, bsk, owner, forced = b.BasketDenom, b, a, true
+					bal = w.S.BankOf(a.String(), b.BasketDenom)
+					break search
+				}
+			}
+		}
+	}
+	if bsk != nil && !forced {
 		// prefer a token holder
 		var holders []sdk.AccAddress
 		for _, a := range w.Accts {
@@ -229,7 +247,11 @@ func genTake(w *World) sdk.Msg {
 	}
 	amt := fmt.Sprintf("%d", 1+w.intn("amt", 5_000_000))
 	if bal != nil && bal.Sign() > 0 {
-		switch w.intn("rel", 7) {
+		rel := w.intn("rel", 7)
+		if forced && rel != 0 {
+			rel = 5
+		}
+		switch rel {
 		case 0:
 			amt = bal.String()
 		case 1:
@@ -239,6 +261,18 @@ func genTake(w *World) sdk.Msg {
 		case 3:
 			if h := new(big.Int).Quo(bal, big.NewInt(2)); h.Sign() > 0 {
 				amt = h.String()
+			}
+		case 5:
+			// a token amount of more than 34 significant digits that the owner can pay (the decimal context of the
+			// chain has 34): everything but a little, or a little more than 10^34
+			if len(bal.String()) > 34 {
+				k := big.NewInt(int64(1 + w.intn("sub", 999)))
+				if w.chance("?low", 50) {
+					amt = new(big.Int).Add(new(big.Int).Exp(big.NewInt(10), big.NewInt(34), nil), k).String()
+				} else {
+					amt = new(big.Int).Sub(bal, k).String()
+				}
+				w.Flags["take>34-digits"] = true
 			}
 		case 4:
 			// exactly the oldest batch's balance in tokens, or one token more/less
